@@ -47,16 +47,20 @@ pub fn gen_case(rng: &mut Rng, thorough: bool) -> FaultCase {
   };
   let ids: Vec<String> = id_names(&cfg);
   let mut ver = 1u64;
+  // swarm: long documents in one case of six (files and log records written
+  // with several write calls: faults between the writes of one file)
+  let big = rng.chance(1, 6);
   let mut prefix = vec![Op::NewWriter { h: 0 }];
   let rounds = rng.usize(4);
   let mut pending = 0usize;
   let mut batch = |rng: &mut Rng, prefix: &mut Vec<Op>, n: usize, pending: &mut usize| {
     for _ in 0..n {
       if rng.chance(3, 4) {
+        let long = big && rng.chance(1, 2);
         prefix.push(Op::Add {
           h: 0,
           id: rng.pick(&ids).clone(),
-          ver,
+          ver: if long { ver + BIG_VERSIONS } else { ver },
         });
         ver += 1;
       } else {
@@ -99,7 +103,7 @@ pub fn gen_case(rng: &mut Rng, thorough: bool) -> FaultCase {
     9..=11 => Op::Add {
       h: 0,
       id: rng.pick(&ids).clone(),
-      ver: 5000,
+      ver: if big { 5000 + BIG_VERSIONS } else { 5000 },
     },
     12..=13 => Op::Delete {
       h: 0,
@@ -491,8 +495,16 @@ pub fn run_case(case: &FaultCase, wroot: &Path, stats: &mut Stats) -> FaultRun {
     return run;
   }
   let mut rng = Rng::new(case.pair_seed);
+  // long targets (long documents: many read/write primitives): every
+  // structural primitive (open, fsync, rename, unlink, set_len, mkdir) and a
+  // seeded sample of about 60 of the reads and writes; pairs are sampled
+  let heavy = base.prims > 120;
+  let pairs = if heavy { case.pairs.min(2) } else { case.pairs };
   'outer: for k in 0..base.prims {
     let prim = base.trace[k as usize];
+    if heavy && case.pin.is_none() && matches!(prim, Prim::Read | Prim::Write) && crate::rng::derive(case.pair_seed, "fault-sample", k) % base.prims >= 60 {
+      continue;
+    }
     for kind in kinds_for(prim) {
       let plan = vec![Fault { at: k, kind }];
       let a = attempt(case, wroot, &plan, stats);
@@ -502,14 +514,14 @@ pub fn run_case(case: &FaultCase, wroot: &Path, stats: &mut Stats) -> FaultRun {
         run.violations.push(v);
         break 'outer;
       }
-      if case.pairs == 0 || a.prims <= k + 1 {
+      if pairs == 0 || a.prims <= k + 1 {
         continue;
       }
       // second faults land in what the first fault made the call do
-      let seconds: Vec<u64> = if case.pairs == u32::MAX {
+      let seconds: Vec<u64> = if pairs == u32::MAX {
         (k + 1..a.prims).collect()
       } else {
-        (0..case.pairs).map(|_| k + 1 + rng.below(a.prims - k - 1)).collect()
+        (0..pairs).map(|_| k + 1 + rng.below(a.prims - k - 1)).collect()
       };
       for k2 in seconds {
         let prim2 = a.trace[k2 as usize];
